@@ -265,3 +265,33 @@ func ZZ_C07_R1_slash_tracker_snapshot_is_deep() {
 	zzAssert("C07.R1.live-tracker-advanced", tr.GetTotalSlashPercent(zzAddr(0), 1) == a0+q)
 	zzReach("C07.R1.done")
 }
+
+// C07 / O1: block building with more transactions than fit (allowOversize = true, the proposer's
+// mempool path). Transactions beyond the size limit are executed on a throw-away layer - so that the
+// mempool learns their results - and that layer is dropped when ApplyTransactions returns. Whatever
+// they did must be gone with it: afterwards the balances seen through the FSM's caches are exactly
+// the stored ones, otherwise the end-block logic of the block being built (reward distribution,
+// fee pool) computes with effects of transactions that are NOT in the block and the proposer's
+// state root differs from every validator's.
+//
+//zz:harness mode=int unwind=60 maxpaths=100000 timebudget=1500 replay=model
+//zz:reach C07.O1.oversized C07.O1.done
+func ZZ_C07_O1_oversize_transactions_leave_no_trace() {
+	w := zzWorldValues()
+	sm, st := zzBuildWorld(w)
+	s1 := zzTxSpec{from: 0, to: 1, signer: 0, amount: zzN64("t1.amount"), fee: zzN64("t1.fee"), created: 10, time: 1, net: 1, chain: 1}
+	s2 := zzTxSpec{from: 1, to: 2, signer: 1, amount: zzN64("t2.amount"), fee: zzN64("t2.fee"), created: 10, time: 2, net: 1, chain: 1}
+	r := &lib.ApplyBlockResults{}
+	if sm.ApplyTransactions(context.Background(), [][]byte{zzSendTxBytes(s1), zzSendTxBytes(s2)}, r, true) != nil {
+		return
+	}
+	zzAssert("C07.O1.fsm-back-on-original-store", sm.store == lib.RWStoreI(st))
+	if len(r.Oversized) > 0 {
+		zzReach("C07.O1.oversized")
+	}
+	cached := zzBalances(sm)
+	sm.ResetCaches()
+	stored := zzBalances(sm)
+	zzAssert("C07.O1.caches-agree-with-the-store-after-the-call", cached == stored)
+	zzReach("C07.O1.done")
+}
